@@ -61,3 +61,9 @@ pub fn outlined_cstring_lossy(buf: Vec<u8>) -> (r: String)
 pub fn outlined_parse_u32_lossy(data: &Vec<u8>) -> (r: Option<u32>)
     ensures r == decimal_u32(data@)
 { unimplemented!() }
+
+/// dinf.rs `self.location.bytes().len()` -- ASSUMED: the number of bytes of the UTF-8 form
+#[verifier::external_body]
+pub fn outlined_str_bytes_len(s: &String) -> (r: usize)
+    ensures r == utf8(s@).len()
+{ unimplemented!() }
